@@ -491,6 +491,44 @@ def gen_anchor_stream(rng):
     return "\n".join(lines) + "\n", docs
 
 
+def gen_aliased_seq_doc(rng):
+    """one document with an anchored sequence whose items are aliases / maps with merge keys / nested flow collections of them,
+    aliased from elsewhere; returns (yaml, ground truth of the root, [(expression, ground truth of its single result)])"""
+    dk = rng.randrange(1, 9)
+    sval = rng.choice(["sval", "12", "true", "a b"])
+    dflt = GT("o", items=[("dk", GT("i", dk, str(dk)))])
+    lines = ["dflt: &dflt {dk: %d}" % dk, "sk: &sk %s" % yaml_dq(sval), "servers: &srv"]
+    items = []
+    for i in range(rng.choice([1, 2, 3, 4])):
+        q = rng.random()
+        if q < 0.35:
+            j = rng.randrange(0, 50)
+            lines += ["  - <<: *dflt", "    j%d: %d" % (i, j)]
+            items.append(GT("o", items=[("dk", GT("i", dk, str(dk))), ("j%d" % i, GT("i", j, str(j)))]))
+        elif q < 0.55:
+            lines.append("  - *sk")
+            items.append(GT("s", sval))
+        elif q < 0.7:
+            lines.append("  - *dflt")
+            items.append(GT("o", items=[("dk", GT("i", dk, str(dk)))]))
+        elif q < 0.85:
+            lines.append("  - [*sk, {<<: *dflt}]")
+            items.append(GT("a", items=[GT("s", sval), GT("o", items=[("dk", GT("i", dk, str(dk)))])]))
+        else:
+            lines.append("  - name: plain%d" % i)
+            items.append(GT("o", items=[("name", GT("s", "plain%d" % i))]))
+    srv = GT("a", items=items)
+    lines += ["copy: *srv", "wrap: {inner: *srv, first: *sk}", "list:", "  - *srv", "  - x"]
+    wrap = GT("o", items=[("inner", srv), ("first", GT("s", sval))])
+    lst = GT("a", items=[srv, GT("s", "x")])
+    root = GT("o", items=[("dflt", dflt), ("sk", GT("s", sval)), ("servers", srv), ("copy", srv), ("wrap", wrap), ("list", lst)])
+    k = rng.randrange(0, len(items))
+    exprs = [(".", root), (".copy", srv), (".servers", srv), (".wrap", wrap), (".wrap.inner", srv), (".list", lst), (".list[0]", srv),
+             (".copy[%d]" % k, items[k]), (".wrap.inner[%d]" % k, items[k]), (".list[0][%d]" % k, items[k]),
+             ('.. | select(has("inner"))' if False else ".wrap | .inner", srv)]
+    return "\n".join(lines) + "\n", root, exprs
+
+
 def py_parse_stream(b):
     """the concatenated JSON documents yq prints for a multi-document input"""
     text = b.decode("utf-8")
@@ -1010,6 +1048,33 @@ def run(chk):
                                "expected_json_b64": [vlib.b64e(gt_expected_json(g)) for g in docs], "impl_out": out.decode("utf-8", "replace")[:2000]}, True,
                               "yq -o=json with anchors/aliases: " + why)
     chk.extra["anchor_alias_streams"] = len(an_cases)
+
+    # ---------------- 3c. non-root results: aliased sequences whose items are aliases / carry merge keys ----------------
+    sq_docs = [gen_aliased_seq_doc(rng) for _ in range(300 if thorough else 40)]
+    jobs, meta = [], []
+    for t, root, exprs in sq_docs:
+        for e, g in (exprs if thorough else [exprs[0]] + rng.sample(exprs[1:], 5)):
+            jobs.append((["-o=json", "-I%d" % rng.choice([0, 2]), e], t.encode("utf-8")))
+            meta.append((t, e, g))
+    n_fail = 0
+    for (t, e, g), (args, src), (rc, out, err) in zip(meta, jobs, run_yq_many(jobs)):
+        chk.count(("nonroot", t, e), nontrivial=e != ".", sample={"yaml": t[:200], "expr": e, "json": out.decode("utf-8", "replace")[:120]} if e == ".copy" else None)
+        why = None
+        if rc != 0:
+            why = "yq failed: " + err.decode("utf-8", "replace")[:200]
+        else:
+            try:
+                ds = diff(g, py_parse(out))
+                if ds:
+                    why = "value differs at %s: want %r got %r" % (ds[0][0], ds[0][2], ds[0][3])
+            except Exception as ex:  # noqa
+                why = "output is not valid JSON (%s): %r" % (ex, out[:200])
+        if why:
+            n_fail += 1
+            if n_fail <= 5:
+                chk.violation({"kind": "yaml2json", "args": args, "input_b64": vlib.b64e(src), "input": t, "expected_json_b64": vlib.b64e(gt_expected_json(g)),
+                               "raw_expected_b64": None, "impl_out": out.decode("utf-8", "replace")[:2000]}, True, "yq -o=json '%s': %s" % (e, why))
+    chk.extra["nonroot_conversions"] = len(jobs)
 
     # ---------------- 4. unrepresentable values must be an error; out-of-range integers ----------------
     must_err = []
